@@ -106,13 +106,25 @@ func (pq *packetQueue) waitForDrain(timeout time.Duration) (timedout bool) {
 		return
 	}
 
-	select {
-	case <-pq.drain:
-	case <-pq._reset:
-	case <-time.After(timeout):
-		timedout = true
+	timeoutChan := time.After(timeout)
+	for {
+		select {
+		case <-pq.drain:
+			// The signal may belong to a `get` that ran before the
+			// last `add`. Make sure the queue is really empty.
+			pq.mu.Lock()
+			drained := len(pq.packets) == 0
+			pq.mu.Unlock()
+			if drained {
+				return
+			}
+		case <-pq._reset:
+			return
+		case <-timeoutChan:
+			timedout = true
+			return
+		}
 	}
-	return
 }
 
 func (pq *packetQueue) pollAndSend(socket eio.Socket) {
